@@ -63,6 +63,11 @@ def m_vd_push_back(ex, a, t): target(a[0]).items.append(a[1]); return UNIT
 def m_vd_pop_front(ex, a, t):
     d = target(a[0])
     return Enum('Option', 'Some', [d.items.pop(0)]) if d.items else Enum('Option', 'None')
+def m_vd_pop_back(ex, a, t):
+    d = target(a[0])
+    return Enum('Option', 'Some', [d.items.pop()]) if d.items else Enum('Option', 'None')
+def m_vd_push_front(ex, a, t): target(a[0]).items.insert(0, a[1]); return UNIT
+def m_vd_is_empty(ex, a, t): return z3.BoolVal(not target(a[0]).items)
 def m_vd_clear(ex, a, t):
     d = target(a[0])
     for it in d.items: ex.drop(it)
@@ -115,7 +120,8 @@ MODELS = [
     (r'(?:^|::)RefCell::<.*>::new$', m_refcell_new), (r'(?:^|::)RefCell::<.*>::borrow_mut$', m_borrow_mut),
     (r'^<RefMut<.*> as Deref(Mut)?>::deref(_mut)?$', m_refmut_deref), (r'(?:^|::)RefCell::<.*>::borrow$', m_borrow), (r'^<(std::cell::)?Ref<.*> as Deref>::deref$', m_ref_deref),
     (r'(?:^|::)VecDeque::<.*>::new$', m_vd_new), (r'(?:^|::)VecDeque::<.*>::push_back$', m_vd_push_back),
-    (r'(?:^|::)VecDeque::<.*>::pop_front$', m_vd_pop_front), (r'(?:^|::)VecDeque::<.*>::clear$', m_vd_clear),
+    (r'(?:^|::)VecDeque::<.*>::pop_front$', m_vd_pop_front), (r'(?:^|::)VecDeque::<.*>::pop_back$', m_vd_pop_back), (r'(?:^|::)VecDeque::<.*>::push_front$', m_vd_push_front),
+    (r'(?:^|::)VecDeque::<.*>::is_empty$', m_vd_is_empty), (r'(?:^|::)VecDeque::<.*>::clear$', m_vd_clear),
     (r'^<Cell<.*> as Default>::default$', m_cell_default), (r'(?:^|::)Cell::<.*>::new$', m_cell_new),
     (r'(?:^|::)Cell::<.*>::replace$', m_cell_replace), (r'(?:^|::)Cell::<.*>::take$', m_cell_take),
     (r'(?:^|::)Cell::<.*>::get$', m_cell_get), (r'(?:^|::)Cell::<.*>::set$', m_cell_set),
@@ -195,6 +201,9 @@ def m_tx_send(ex, a, t):
 def m_map_err(ex, a, t):
     r, clo = a
     if r.variant == 'Ok': return r
+    if not isinstance(clo, ClosureVal):      # a function item (e.g. an enum constructor)
+        import srvmodels
+        return Enum('Result', 'Err', [srvmodels._callable(ex, clo, [r.f[0].v])])
     f = [fn for n, fn in ex.fns.items() if '{closure#' in n and clo.ty.split('@')[1].rstrip('}') in fn.header]
     if len(f) != 1: raise Unknown('closure ' + clo.ty)
     return Enum('Result', 'Err', [ex.run(f[0], [clo, r.f[0].v])])
@@ -396,6 +405,8 @@ def m_dyn_fut_poll(ex, a, t):
     f = a[0]
     while isinstance(f, Ref): f = f.lv.get()
     if hasattr(f, 'is_box'): f = f.content.v
+    while isinstance(f, Ref): f = f.lv.get()
+    if isinstance(f, CoroutineVal): return poll_coroutine(ex, f, a[1] if len(a) > 1 else None)
     return f.poll(ex)
 def m_pin_as_mut(ex, a, t):
     v = target(a[0])
@@ -480,12 +491,14 @@ MODELS[:0] = [(r'(?:^|::)Events::with_capacity$', m_events_new), (r'(?:^|::)Poll
 def coroutine_body(ex, co):
     loc = co.loc()
     c = [f for n, f in ex.fns.items() if loc in f.types.get(1, '') and f.types.get(1, '').startswith('Pin<&mut {')]
+    if len(c) != 1 and getattr(co, 'maker', None):       # `async fn f`: the body is f::{closure#0}, its type prints as `{async fn body of f()}`
+        g = ex.fns.get(co.maker + '::{closure#0}')
+        if g is not None and 'async fn body' in g.types.get(1, ''): c = [g]
     if len(c) != 1: raise Unknown('coroutine body for %s -> %d candidates' % (co.ty, len(c)))
     return c[0]
 def poll_coroutine(ex, co, cx=None):
     """resume the coroutine once; returns the Poll value of its body"""
-    if co.state != 0: raise Panic('`async fn` resumed after completion')
-    f = coroutine_body(ex, co)
+    f = coroutine_body(ex, co)       # a resume after completion / panic reaches the body's own assert(false, ..)
     return ex.run(f, [Ref(LCell(Cell(co))), cx if cx is not None else Ref(LCell(Cell(ContextObj(WakerObj(0)))))])
 def m_call_once(ex, a, t):
     f = a[0]
